@@ -543,6 +543,8 @@ def preregister_lambdas(self):
             counter[0] += 1
             cname = 'closure_%s_%d' % (encl, counter[0])
             qual = qt(x)
+            for ctx in (encl, cname + '__call'):
+                self.te.lambda_names[(ctx, qual)] = cname
             if rec['id'] not in self.records:
                 r = Record(rec, qual)
                 r.cname = cname
@@ -551,6 +553,8 @@ def preregister_lambdas(self):
                 self.records[rec['id']] = r
                 self.rec_by_qual[qual] = r
                 self.te.record_names[qual] = cname
+                for ctx in (encl, cname + '__call'):
+                    self.lambda_recs[(ctx, qual)] = r
                 call = [c for c in kids(rec) if c.get('kind') == 'CXXMethodDecl' and c.get('name') == 'operator()']
                 if call:
                     fn = Func(call[0], qual + '::operator()', r, self)
